@@ -78,7 +78,7 @@ func checkC09(c *Ctx) {
 	c.Extra("tlc_transitions_replayed", len(persist))
 	nRand := 40
 	if !c.Quick() {
-		nRand = 5000
+		nRand = 15000
 	}
 	prof := gcsProfile{fileSafe: true, n: 22, pCond: 0.15, wUpload: 4, wResum: 1.2, wPatch: 1.5, wDelete: 1.2, wRead: 1, wCompose: 0.6, wCopy: 0.6, wList: 0.6, maxResum: 20}
 	var equiv [][]gcs.Op
